@@ -56,7 +56,7 @@ from odl.solvers.smooth import gradient as M_gr
 from mc import spaces as S
 
 PROPERTY = 'C11'
-BUDGET = {'quick': 600, 'thorough': 3600}
+BUDGET = {'quick': 1500, 'thorough': 3600}
 TOL = 1e-12
 _THIS = os.path.abspath(__file__)
 
